@@ -8,6 +8,13 @@ The statement is a two-run (relational) claim, so the oracle is a two-world comp
   world B   build the same tree again, apply the same H in the same way, then ask the same O1..Ok but
             with ``CanvasCache.clear()`` immediately before every Oi ("the cache emptied first").
 
+Observation below the root ("render-below" in a failure's `observation`).  Every subtree is a widget tree, so the
+statement also holds at the descendants: at the very end of world A, every finalized canvas below the handed-out root
+canvases that is still alive, belongs to a widget the grammar names (subject_widgets) and is handed out AGAIN by that
+widget's render(size, focus) right now (cache hit, the same object) is compared with the same call after
+CanvasCache.clear().  This sees a cached child canvas that a parent's render polluted (e.g. through a shard list shared
+by CompositeCanvas(canv)) in the state it is in, before a change of context makes it visible at the root.
+
 Failures are minimised by step removal (each candidate re-run on the real code) and grouped by the
 mutators of the minimal history ("failure_groups" / "failure_group_examples" in each check result).
 
@@ -41,7 +48,11 @@ Readings of the statement fixed here:
  * A history after which world A's cache is empty and no canvas is held is *trivial*: both worlds then
    run identical code.  It is counted as an evaluation but world B is not run for it.
  * Handed-out canvases: every canvas returned by a root render in world A is snapshotted
-   (content, cursor, size) when handed out and compared at the end of the run.
+   (content, cursor, size) when handed out and compared at the end of the run.  So is every finalized
+   canvas below it in the canvas tree (the canvases the descendants' renders handed out to their parents,
+   the ones the cache hands out again): snapshotted when the root render that first shows them returns,
+   tracked through weak references only (the harness must not prolong their life: collections are part of
+   the histories), compared at the end if still alive.
 """
 from __future__ import annotations
 
@@ -51,6 +62,7 @@ import multiprocessing
 import os
 import time
 import warnings
+import weakref
 
 import urwid
 from urwid import str_util
@@ -62,9 +74,9 @@ from bounded.common import Check, rng
 ID = "C06"
 
 RULES = {
-    "cached-equals-fresh": "for every tree x history: each final render(size, focus) with the cache as the history left it equals, in content(), cursor, cols and rows, the same render in a second run of the same history with CanvasCache.clear() called first (exception in one run only = failure)",
+    "cached-equals-fresh": "for every tree x history: each final render(size, focus) with the cache as the history left it equals, in content(), cursor, cols and rows, the same render in a second run of the same history with CanvasCache.clear() called first (exception in one run only = failure); and at the end every descendant canvas that the cache still hands out for its (widget, size, focus) equals that widget's render with the cache emptied first",
     "rows-cached-equals-fresh": "for every flow-root tree x history: rows(size, focus) answered with the cache as-is equals rows() after CanvasCache.clear()",
-    "handed-out-unchanged": "every canvas returned by a root render during the history and the observations still has the content(), cursor, cols, rows it had when handed out",
+    "handed-out-unchanged": "every canvas returned by a root render during the history and the observations, and every finalized canvas below it in its canvas tree that is still alive, still has the content(), cursor, cols, rows it had when handed out",
     "finalized-refuse-mutation": "every canvas handed out by a widget render (root and all child canvases carrying widget_info) refuses each CompositeCanvas/Canvas mutator with CanvasError and is unchanged afterwards",
 }
 
@@ -874,6 +886,22 @@ def snap(canv):
         return ("raised", "content():" + type(e).__name__, str(e)[:120])
 
 
+def subject_widgets(root_node):
+    """{id(widget)} of the widgets the tree grammar names below the root: the node widgets and their named parts (nd.x).
+    These are the widgets the histories edit; their fixed siblings and the widgets a compound widget builds internally
+    are left to the observation at the root."""
+    out, todo = set(), list(root_node.kids)
+    for v in root_node.x.values():
+        if isinstance(v, urwid.Widget) and v is not root_node.w:
+            out.add(id(v))
+    while todo:
+        nd = todo.pop()
+        out.add(id(nd.w))
+        out.update(id(v) for v in nd.x.values() if isinstance(v, urwid.Widget))
+        todo.extend(nd.kids)
+    return out
+
+
 class World:
     def __init__(self, spec):
         CanvasCache.clear()
@@ -882,6 +910,7 @@ class World:
         self.root = build(spec)
         self.sizes = sizes_for(_typ_of(spec))
         self.held = []  # [(canvas, snapshot)]
+        self.below = {}  # id(canvas) -> (weakref to a finalized canvas below a handed-out root canvas, snapshot)
         self.step_exc = []
 
     def step(self, st, take_snap=True):
@@ -890,6 +919,8 @@ class World:
         if kindn == "render":
             c = w.render(self.sizes[st[1]], focus=st[2])
             self.held.append((c, snap(c) if take_snap else None))
+            if take_snap:
+                self.snap_below(c)
             return c
         if kindn == "rows":
             return w.rows(self.sizes[st[1]], st[2])
@@ -916,6 +947,64 @@ class World:
             return None
         raise ValueError(st)
 
+    def snap_below(self, top):
+        seen = {}
+        _walk_canvases(top, seen)
+        for i, d in seen.items():
+            if d is top or not d.widget_info:
+                continue
+            known = self.below.get(i)
+            if known is None or known[0]() is not d:
+                self.below[i] = (weakref.ref(d), snap(d))
+
+    def changed_below(self):
+        """-> None | detail of the first still-alive finalized descendant canvas that differs from its snapshot"""
+        for wr, s0 in self.below.values():
+            d = wr()
+            if d is not None:
+                s1 = snap(d)
+                if s1 != s0:
+                    return {"held_index": None, "canvas_of": type(d.widget_info[0]).__name__, "size": list(d.widget_info[1]), "focus": bool(d.widget_info[2]), "at_hand_out": _fmt(s0), "now": _fmt(s1)}
+        return None
+
+    def observe_below(self):
+        """The statement at the descendants (every subtree is a widget tree): for each finalized canvas below the handed-out
+        root canvases that is still alive and that its widget's render(size, focus) hands out again right now (a cache hit:
+        the very same object), that canvas must equal what the same call renders with the cache emptied first.  Run at the
+        very end of world A (it empties the cache); all hits are determined before the first emptying.
+        -> [(("render-below", widget class, size, focus), cached snapshot, fresh snapshot)]"""
+        hits = []
+        in_tree = subject_widgets(self.root)
+        for wr, _s0 in list(self.below.values()):
+            d = wr()
+            if d is None:
+                continue
+            w, size, focus = d.widget_info
+            if id(w) not in in_tree:
+                # Declared reduction: only the widgets the grammar names (see subject_widgets). In particular NOT
+                # render-internal temporaries such as the Text that ProgressBar.render builds, renders and then repaints
+                # through private attributes: nobody else can ever ask that widget to render again, so the statement says
+                # nothing about it (a first version asked every widget found in widget_info and reported ProgressBar: a
+                # false alarm of the harness).
+                continue
+            try:
+                got = w.render(size, focus=focus)
+            except Exception:  # noqa: BLE001, S112 - a miss that raises: nothing was handed out by the cache
+                continue
+            if got is d:
+                hits.append(d)
+        out = []
+        for d in hits:
+            w, size, focus = d.widget_info
+            a = snap(d)
+            CanvasCache.clear()
+            try:
+                b = snap(w.render(size, focus=focus))
+            except Exception as e:  # noqa: BLE001
+                b = ("raised", type(e).__name__, str(e)[:120])
+            out.append((("render-below", type(w).__name__, list(size), bool(focus)), a, b))
+        return out
+
     def run_history(self, hist, take_snap=True):
         for st in hist:
             try:
@@ -937,6 +1026,7 @@ class World:
 
     def close(self):
         self.held = []
+        self.below = {}
         self.root = None
         CanvasCache.clear()
 
@@ -973,6 +1063,9 @@ def evaluate(spec, hist, tier="thorough", obs=None):
             if s1 != s0:
                 handed_bad = {"held_index": i, "at_hand_out": _fmt(s0), "now": _fmt(s1)}
                 break
+        if handed_bad is None:
+            handed_bad = A.changed_below()
+        below_res = A.observe_below()
         step_exc = A.step_exc
     finally:
         A.close()
@@ -990,6 +1083,7 @@ def evaluate(spec, hist, tier="thorough", obs=None):
     out = {"trivial": False, "step_exc": step_exc, "render": [], "rows": [], "handed_bad": handed_bad}
     for ob, a, b in zip(obs, a_res, b_res):
         out["render" if ob[0] == "render" else "rows"].append((ob, a, b))
+    out["render"].extend(below_res)
     return out
 
 
@@ -1191,7 +1285,7 @@ def select_trees(tier, seed):
                 plan.append((t, "quick", 5, "gc"))
         # the garbage-collection family on every root+leaf tree, and seeded longer histories with several collections
         plan += [(t, "quick", 5, "gc") for t in d1]
-        plan += [(t, "quick", 7, ("gcsample", 12)) for t in d1]
+        plan += [(t, "quick", 7, ("gcsample", 6)) for t in d1]
         return plan
     d3 = trees_of_depth(3)
     plan += [(t, "thorough", 3, "full") for t in d0]
@@ -1481,12 +1575,13 @@ def run(tier="quick", seed=0):
 
     ntrees = len(seen_tree)
     if tier == "quick":
-        scope = "all 12 leaves alone (histories <= 3 steps, exhaustive), all 204 root+leaf trees (<= 2 steps exhaustive; 100 seeded 3-step histories on one tree per root kind), 1 seeded root+middle+leaf tree per middle kind (<= 2 steps exhaustive); sampled-histories also: 12 seeded 7-step histories per root+leaf tree over the garbage-collection alphabet (renders incl. a vertical resize, 3 ways of dropping held canvases + gc.collect(), mutators of non-root nodes, keys, mouse)"
+        scope = "all 12 leaves alone (histories <= 3 steps, exhaustive), all 204 root+leaf trees (<= 2 steps exhaustive; 100 seeded 3-step histories on one tree per root kind), 1 seeded root+middle+leaf tree per middle kind (<= 2 steps exhaustive); sampled-histories also: 6 seeded 7-step histories per root+leaf tree over the garbage-collection alphabet (renders incl. a vertical resize, 3 ways of dropping held canvases + gc.collect(), mutators of non-root nodes, keys, mouse)"
     else:
         scope = "all 12 leaves alone (<= 3 steps exhaustive over the full alphabet, 3000 seeded 4-step), all 204 root+leaf trees (<= 2 steps full alphabet exhaustive; 3 steps over the reduced alphabet exhaustive on a set covering every root and leaf kind, 250 seeded on the others; 80 seeded 4-step), 150 seeded depth-2 trees (<= 2 exhaustive, 150 seeded 3-step) and 100 seeded depth-3 trees (<= 2 exhaustive, 100 seeded 4-step); sampled-histories also: 80 seeded 8-step histories per root+leaf tree over the garbage-collection alphabet (renders incl. a vertical resize, 3 ways of dropping held canvases + gc.collect(), every mutator, keys, mouse)"
     bound = (
         f"{len(KINDS)} widget kinds ({len(LEAVES)} leaves, {len(INNER)} decorations/containers) in chain-shaped trees with fixed siblings, {ntrees} trees: {scope}; "
         "steps = render(2 sizes x focus) / rows / every public mutator of every node / keys and mouse at the root / drop held canvases + gc.collect(); "
+        "after the root observations of the first run, every still-cached canvas of a grammar-named descendant is compared with that descendant's render after CanvasCache.clear(); "
         f"each history observed at its end by {4 if tier == 'quick' else 5} renders (+{1 if tier == 'quick' else 2} rows for flow roots) in two runs (cache as-is / CanvasCache.clear() first)"
     )
     gc_bound = (
